@@ -31,7 +31,8 @@ Admissible local `n = e` (statement D at position i of block B):
     (lock before load, test before use) therefore see the same order in every form.
 Assumption (stated in DESIGN.md): a call-free right-hand side (attribute/subscript chain) denotes the same value at D and at
 the reads unless one of the mutations above is visible in the function; evaluation order inside one statement is not tracked.
-`L = [comprehension]` directly followed by `L.sort()` is read as `L = sorted(generator)`.
+`L = [comprehension]` directly followed by `L.sort()` is read as `L = sorted(generator)`; an accumulation loop directly after the
+initialisation of its accumulator (`D = {}; for ..: D[k] = v`, `L = []; for ..: L.append(v)`, `n = 0; for ..: n += v`) is read as the comprehension.
 A complete if/elif/else chain whose branches each consist of one assignment to the same otherwise unbound name is
 first rewritten into one assignment of a conditional expression; `a, b = x, y` with disjoint names is split.
 
@@ -49,7 +50,7 @@ import copy
 
 from .astutil import walk_no_nested
 
-FORMS = ('raw', 'vocab', 'vocab+proj', 'proj', 'once', 'all', 'helpers', 'vocab+proj+helpers', 'all+helpers')
+FORMS = ('raw', 'names', 'vocab', 'vocab+proj', 'proj', 'once', 'all', 'helpers', 'vocab+proj+helpers', 'all+helpers', 'names+vocab+proj', 'names+all')
 
 MUTATORS = {'append', 'extend', 'insert', 'remove', 'pop', 'popleft', 'popitem', 'clear', 'sort', 'reverse', 'update', 'add', 'discard',
             'setdefault', 'setflags', 'fill', 'resize', 'put', 'itemset', 'appendleft', 'write', 'send', 'close', '__setitem__',
@@ -339,9 +340,54 @@ def _list_then_sort(fn):
             i += 1
 
 
+def _loops_to_comprehensions(fn):
+    '''An accumulation loop directly after the initialisation of its accumulator is the comprehension it spells out:
+        D = {} ; for T in I: D[K] = V              ->  D = {K: V for T in I}
+        L = [] ; for T in I: L.append(V)           ->  L = [V for T in I]          (also under one `if C:` -> `... if C`)
+        N = 0  ; for T in I: N += V                ->  N = sum(V for T in I)       (also `if C: N += 1` -> sum(1 for T in I if C))
+    provided the loop has no else/break/continue, its body is that single statement, and neither the iterable nor K, V, C read the accumulator.'''
+    def reads(node, name):
+        return any(isinstance(n, ast.Name) and n.id == name for n in ast.walk(node))
+    for b in _blocks(fn):
+        i = 0
+        while i + 1 < len(b):
+            init, lp = b[i], b[i + 1]
+            i += 1
+            if not (isinstance(init, ast.Assign) and len(init.targets) == 1 and isinstance(init.targets[0], ast.Name) and isinstance(lp, ast.For) and not lp.orelse and len(lp.body) == 1):
+                continue
+            acc = init.targets[0].id
+            if reads(lp.iter, acc) or reads(lp.target, acc) or any(isinstance(n, (ast.Break, ast.Continue, ast.Return, ast.Yield)) for n in ast.walk(lp)):
+                continue
+            st, cond = lp.body[0], None
+            if isinstance(st, ast.If) and not st.orelse and len(st.body) == 1 and not reads(st.test, acc):
+                st, cond = st.body[0], st.test
+            gen = ast.comprehension(target=lp.target, iter=lp.iter, ifs=[cond] if cond is not None else [], is_async=0)
+            new = None
+            v = init.value
+            empty_dict = (isinstance(v, ast.Dict) and not v.keys) or (isinstance(v, ast.Call) and ast.unparse(v) == 'dict()')
+            empty_list = (isinstance(v, ast.List) and not v.elts) or (isinstance(v, ast.Call) and ast.unparse(v) == 'list()')
+            if empty_dict and cond is None and isinstance(st, ast.Assign) and len(st.targets) == 1 and isinstance(st.targets[0], ast.Subscript) \
+                    and isinstance(st.targets[0].value, ast.Name) and st.targets[0].value.id == acc and not reads(st.targets[0].slice, acc) and not reads(st.value, acc):
+                new = ast.DictComp(key=st.targets[0].slice, value=st.value, generators=[gen])
+            elif empty_list and isinstance(st, ast.Expr) and isinstance(st.value, ast.Call) and isinstance(st.value.func, ast.Attribute) and st.value.func.attr == 'append' \
+                    and isinstance(st.value.func.value, ast.Name) and st.value.func.value.id == acc and len(st.value.args) == 1 and not reads(st.value.args[0], acc):
+                new = ast.ListComp(elt=st.value.args[0], generators=[gen])
+            elif isinstance(v, ast.Constant) and v.value == 0 and not isinstance(v.value, bool) and isinstance(st, ast.AugAssign) and isinstance(st.op, ast.Add) \
+                    and isinstance(st.target, ast.Name) and st.target.id == acc and not reads(st.value, acc):
+                new = ast.Call(func=ast.Name(id='sum', ctx=ast.Load()), args=[ast.GeneratorExp(elt=st.value, generators=[gen])], keywords=[])
+            if new is None:
+                continue
+            init.value = new
+            ast.copy_location(new, init)
+            ast.fix_missing_locations(init)
+            del b[i]
+            i -= 1
+
+
 def _inline_function(fn, flags):
     '''One fixpoint of alias substitution in the own scope of fn.  flags: subset of {'vocab', 'proj', 'once', 'all'}.'''
     _split_tuple_assignments(fn)
+    _loops_to_comprehensions(fn)
     _list_then_sort(fn)
     while _collapse_conditional_definitions(fn):
         pass
@@ -750,7 +796,89 @@ def _qualified(tree):
     return out
 
 
-def normalize(tree, form, source=None, filename='<unknown>', helpers=None, functions=None):
+def _rename_locals(fn, suffix='_r'):
+    '''Alpha-renaming: every local of the function that is not a parameter, not global/nonlocal and not read in a nested scope gets a new name.
+    Used to measure which rules depend on the NAME of a local (the thorough tier runs the rules on the renamed tree).'''
+    counts, special = _bindings(fn)
+    a = fn.args
+    params_ = {x.arg for x in a.posonlyargs + a.args + a.kwonlyargs + ([a.vararg] if a.vararg else []) + ([a.kwarg] if a.kwarg else [])}
+    nested = _nested_reads(fn)
+    stored = set()
+    for n in _own_nodes(fn):
+        if isinstance(n, ast.Name) and isinstance(n.ctx, (ast.Store, ast.Del)):
+            stored.add(n.id)
+    names = {n for n in stored if n not in params_ and n not in special and n not in nested and not n.startswith('__') and n != '_'}
+    if not names:
+        return
+    for n in _own_nodes(fn):
+        if isinstance(n, ast.Name) and n.id in names:
+            n.id = n.id + suffix
+        elif isinstance(n, ast.ExceptHandler) and n.name in names:
+            n.name = n.name + suffix
+
+
+def local_order(fn):
+    '''The renamable locals of a function in the order of their first binding (source position).'''
+    counts, special = _bindings(fn)
+    a = fn.args
+    params_ = {x.arg for x in a.posonlyargs + a.args + a.kwonlyargs + ([a.vararg] if a.vararg else []) + ([a.kwarg] if a.kwarg else [])}
+    nested = _nested_reads(fn)
+    first = {}
+    for n in _own_nodes(fn):
+        nm, pos = None, None
+        if isinstance(n, ast.Name) and isinstance(n.ctx, (ast.Store, ast.Del)):
+            nm, pos = n.id, (n.lineno, n.col_offset)
+        elif isinstance(n, ast.ExceptHandler) and n.name:
+            nm, pos = n.name, (n.lineno, n.col_offset)
+        if nm is None or nm in params_ or nm in special or nm in nested or nm == '_' or nm.startswith('__'):
+            continue
+        if nm not in first or pos < first[nm]:
+            first[nm] = pos
+    return [k for k, _ in sorted(first.items(), key=lambda kv: kv[1])]
+
+
+_REFNAMES = None
+
+
+def reference_names():
+    '''oracles/local_names.json: for every function of the anchored tree the names of its locals in binding order (tools/mk_local_names.py).'''
+    global _REFNAMES
+    if _REFNAMES is None:
+        import json
+        import os
+        path = os.path.join(os.path.dirname(os.path.dirname(os.path.abspath(__file__))), 'oracles', 'local_names.json')
+        try:
+            with open(path) as f:
+                _REFNAMES = json.load(f)
+        except OSError:
+            _REFNAMES = {}
+    return _REFNAMES
+
+
+def _restore_names(fn, ref):
+    '''Alpha-renaming towards the reference naming: the k-th local (binding order) gets the k-th reference name, when the function has as many
+    locals as the reference and no new name would capture a name the function reads from outside.  Any consistent renaming of locals
+    preserves behaviour, so the table only chooses WHICH renaming is tried.'''
+    cur = local_order(fn)
+    if len(cur) != len(ref) or cur == ref:
+        return False
+    mapping = {c: r for c, r in zip(cur, ref) if c != r}
+    if len(set(ref)) != len(ref):
+        return False
+    a = fn.args
+    outside = {n.id for n in _own_nodes(fn) if isinstance(n, ast.Name)} - set(cur)
+    outside |= {x.arg for x in a.posonlyargs + a.args + a.kwonlyargs + ([a.vararg] if a.vararg else []) + ([a.kwarg] if a.kwarg else [])}
+    if any(r in outside for r in mapping.values()):
+        return False
+    for n in _own_nodes(fn):
+        if isinstance(n, ast.Name) and n.id in mapping:
+            n.id = mapping[n.id]
+        elif isinstance(n, ast.ExceptHandler) and n.name in mapping:
+            n.name = mapping[n.name]
+    return True
+
+
+def normalize(tree, form, source=None, filename='<unknown>', helpers=None, functions=None, module=None):
     '''A new tree in the given normal form (the argument is not modified).  `functions`: qualnames to rewrite (all when None);
     `helpers`: names of the private helpers whose calls may be expanded (all when None).'''
     if form == 'raw':
@@ -760,7 +888,15 @@ def normalize(tree, form, source=None, filename='<unknown>', helpers=None, funct
     targets = [(q, n) for q, n in _qualified(new) if functions is None or q in functions or any(q.startswith(f + '.<locals>.') for f in functions)]
     if 'helpers' in flags:
         _expand_helpers(new, helpers, None if functions is None else {id(n) for _, n in targets})
-    flags -= {'helpers', 'raw'}
+    if 'rename' in flags:
+        for q, node in targets:
+            _rename_locals(node)
+    if 'names' in flags:
+        ref = reference_names().get(module or '', {})
+        for q, node in targets:
+            if q in ref:
+                _restore_names(node, ref[q])
+    flags -= {'helpers', 'raw', 'rename', 'names'}
     if flags:
         for q, node in targets:
             _inline_function(node, flags)
